@@ -12,7 +12,7 @@ head=$(git -C /repo rev-parse HEAD)
 if [ ! -d $WT ]; then git -C /repo worktree add -q --detach $WT HEAD || exit 2; fi
 git -C $WT checkout -q --detach $head 2>/dev/null; git -C $WT checkout -q -- . ; git -C $WT clean -fdq
 mkdir -p $SIMC $WORK
-rsync -a --delete --exclude target /verif/sim/ $SIMC/
+rsync -a --delete --exclude target ${SIM_SRC:-/verif/sim}/ $SIMC/
 sed -i "s|/repo/crates|$WT/crates|g" $SIMC/Cargo.toml
 rm -rf $WORK/*; cp /verif/known_findings.json $WORK/; cp -r /verif/regressions $WORK/ 2>/dev/null
 if ! git -C $WT apply "$patch"; then echo "patch does not apply"; exit 2; fi
